@@ -1,17 +1,15 @@
 #!/bin/sh
 # Runs every behaviour-preserving patch (benign/*.patch, benign/indep/*.patch)
 # through the analyser (a private copy of the binary, so that rebuilding
-# /verif/bin meanwhile does not mix results) and prints the patches that
-# raise an alarm. usage: tools/runbenign.sh [glob-prefix]
+# /verif/bin meanwhile does not mix results), JOBS at a time, and prints the
+# patches that raise an alarm. usage: tools/runbenign.sh [glob-prefix]
 cd /verif
 B=/verif/bin/clusterlint-benign-$$
 cp bin/clusterlint $B
-n=0; bad=0
-for b in benign/${1:-}*.patch benign/indep/${1:-}*.patch; do
-  [ -f "$b" ] || continue
-  n=$((n+1))
-  out=$(CLUSTERLINT_BIN=$B tools/trymutant.sh $b all | grep "^VIOLATED\|^UNDECIDED\|^BROKEN\|^PATCH" | cut -c1-220)
-  if [ -n "$out" ]; then bad=$((bad+1)); echo "== $b"; echo "$out"; fi
-done
+L=$(mktemp)
+ls benign/${1:-}*.patch benign/indep/${1:-}*.patch 2>/dev/null | CLUSTERLINT_BIN=$B xargs -P ${JOBS:-6} -I{} sh -c 'out=$(tools/trymutant.sh {} all | grep "^VIOLATED\|^UNDECIDED\|^BROKEN\|^PATCH" | cut -c1-220); if [ -n "$out" ]; then printf "== %s\n%s\n" "{}" "$out"; else echo "ok {}"; fi' > $L 2>&1
 rm -f $B
+grep -v "^ok " $L
+n=$(grep -c "^ok \|^== " $L); bad=$(grep -c "^== " $L)
+rm -f $L
 echo "DONE: $bad of $n benign patches raise an alarm"
